@@ -66,12 +66,21 @@ Proof.
 Qed.
 Print Assumptions expr_builder_preserves_partial.
 
-(* BranchBuilder.add_branch on the fragment frag_cond *)
+(* BranchBuilder.add_branch on the fragment frag_cond.  [branch_spec oracle e] (ProofsBranch.v) reads:
+     forall bb t f g n s',
+       build_branch e bb t f (mkB g n) = BOk tt s' ->
+       opn g bb -> bb <> exit_idx -> exit_idx < length g -> t < length g -> f < length g -> t <> bb -> f <> bb ->
+       exists g', s' = mkB g' n /\ grows g bb g' /\
+         forall G, ext g' G -> forall st b st' ret, eval_truth oracle e st = Done (b, st') ->
+           steps oracle G (mkConfig bb (slen g bb) st ret) (mkConfig (if b then t else f) 0 st' ret)
+   i.e. in every graph G extending the builder's result, from the end of the current block bb control
+   reaches the true target t (resp. false target f) at position 0 with exactly Python's state/trace. *)
 Theorem branch_build_preserves_partial : forall oracle e, frag_cond e = true ->
   forall bb t f g n s',
   build_branch e bb t f (mkB g n) = BOk tt s' ->
   opn g bb -> bb <> exit_idx -> exit_idx < length g -> t < length g -> f < length g -> t <> bb -> f <> bb ->
-  exists g', s' = mkB g' n /\ grows g bb g' /    forall G, ext g' G -> forall st b st' ret, eval_truth oracle e st = Done (b, st') ->
+  exists g', s' = mkB g' n /\ grows g bb g' /\
+    forall G, ext g' G -> forall st b st' ret, eval_truth oracle e st = Done (b, st') ->
       steps oracle G (mkConfig bb (slen g bb) st ret) (mkConfig (if b then t else f) 0 st' ret).
 Proof. intros oracle e H. exact (branch_ok oracle e H). Qed.
 Print Assumptions branch_build_preserves_partial.
@@ -83,8 +92,14 @@ Definition ex_cond : expr :=
     (EBool BoOr (v 1) (EIf (ECmp (v 2) (CLast CEq (i 3))) (EConst (CBool true)) (ECall 1 (ECons (v 0) ENil))))).
 Definition ex_graph : list block := [empty_block; empty_block; empty_block; empty_block].
 Example branch_hypotheses_satisfiable :
-  frag_cond ex_cond = true /  (exists s', build_branch ex_cond 0 2 3 (mkB ex_graph 0) = BOk tt s' /\ length (bs_blocks s') = 8) /  opn ex_graph 0 /\ exit_idx < length ex_graph /  eval_truth test_oracle ex_cond st0 = Done (false, (fst st0, [Ev 1 [VInt 0] (VBool true)])).
+  frag_cond ex_cond = true /\
+  (exists s', build_branch ex_cond 0 2 3 (mkB ex_graph 0) = BOk tt s' /\ length (bs_blocks s') = 8) /\
+  opn ex_graph 0 /\ exit_idx < length ex_graph /\
+  eval_truth test_oracle ex_cond st0 = Done (false, (fst st0, [Ev 1 [VInt 0] (VBool true)])).
 Proof.
-  split; [reflexivity|]. split; [eexists; split; vm_compute; reflexivity|].
-  split; [unfold opn; simpl; auto|]. split; [simpl; auto|]. reflexivity.
+  split. { reflexivity. }
+  split. { eexists; split; vm_compute; reflexivity. }
+  split. { unfold opn; simpl; repeat split; auto. }
+  split. { unfold exit_idx; simpl; repeat constructor. }
+  vm_compute. reflexivity.
 Qed.
